@@ -494,7 +494,27 @@ func c10ReadSites(c *Ctx) {
 		c.FuncsAnalysed[fname] = true
 		switch {
 		case fname == c10CH+"Service.readLocalCommitted":
-			c10ClampedRead(c, "R3-cap", cs)
+			c10ClampedRead(c, "R3-cap", cs, false)
+		case fname == "pkg/cluster.Node.ReadChannelCommitted":
+			// management reads of the local replica store: must clamp like readLocalCommitted
+			// (the by-value request parameter is the private copy; the live runtime HW of the
+			// locally loaded channel is an accepted committed source besides the durable HW).
+			before := len(c.Obligs)
+			c10ClampedRead(c, "R3-node", cs, true)
+			bad := ""
+			for _, o := range c.Obligs[before:] {
+				if o.Status == Violated || o.Status == Undecided {
+					bad = o.Detail
+					break
+				}
+			}
+			if bad != "" {
+				c.add("confine", "R3-sites", fname+"#ReadCommitted", Violated, pos,
+					fmt.Sprintf("%s calls ChannelStore.ReadCommitted without clamping the request to a loaded committed watermark (%s), so rows above HW can be returned to management reads", fname, bad))
+				c.Obligs = append(c.Obligs[:before], c.Obligs[len(c.Obligs)-1])
+			} else {
+				c.add("confine", "R3-sites", fname+"#ReadCommitted", Held, pos, "request clamped to the loaded committed watermark before the store is read (see R3-node obligations)")
+			}
 		case fname == c10CH+"readLastOrdinaryCommitted":
 			c.StoreShape("R3-sites", cs.fn, "*ReadCommittedRequest.MaxSeq", "committed")
 			c.StoreShape("R3-sites", cs.fn, "*ReadCommittedRequest.MinSeq", c10CH+"nextSeq(retentionThroughSeq)")
@@ -543,13 +563,15 @@ func c10CommittedValue(fn *ssa.Function, v ssa.Value, live bool) string {
 			if pred == nil {
 				return "LEO used as the committed bound unconditionally"
 			}
-			removed, _ := guardEdges(fn, parseGuard("minISR <= 1"))
+			removed, _ := guardEdges(fn, parseGuard("minISR <= 1 || *.MinISR <= 1"))
 			if _, reach := reachUnguarded(fn, removed, nil)[pred]; reach {
 				return "LEO is used as the committed bound without a dominating minISR <= 1"
 			}
 			return ""
 		case live && glob(c10CH+"maxUint64Value(*.HW, liveCommitted)", p):
 			return ""
+		case live && glob("pkg/cluster.Node.loadedChannelHW(*)", p):
+			return "" // live HW of the locally loaded runtime (its body is checked by R3-node/live-hw)
 		}
 		return "committed bound has an unexpected source: " + p
 	}
@@ -567,7 +589,7 @@ func c10CommittedValue(fn *ssa.Function, v ssa.Value, live bool) string {
 // c10ClampedRead: the request passed to ReadCommitted is a local copy whose MaxSeq is clamped to
 // the committed watermark (and replaced when 0 = unbounded) and whose MinSeq is raised to
 // next(max(meta retention, local retention)) on every path to the call.
-func c10ClampedRead(c *Ctx, rule string, cs callSite) {
+func c10ClampedRead(c *Ctx, rule string, cs callSite, nodeRead bool) {
 	fn := cs.fn
 	fname := c.P.Name(fn)
 	in := cs.in.(ssa.Instruction)
@@ -578,7 +600,7 @@ func c10ClampedRead(c *Ctx, rule string, cs callSite) {
 	if ld != nil {
 		a, _ = ld.X.(*ssa.Alloc)
 	}
-	if a == nil || spilledParam(a) != nil {
+	if a == nil || (spilledParam(a) != nil && !nodeRead) {
 		c.add("shape", rule, fname+"#request", Violated, pos, "the request passed to ReadCommitted is not a local copy that can be clamped: "+Path(args[len(args)-1]))
 		return
 	}
@@ -609,7 +631,7 @@ func c10ClampedRead(c *Ctx, rule string, cs callSite) {
 	capOK := len(stores["MaxSeq"]) > 0
 	var committed ssa.Value
 	for _, st := range stores["MaxSeq"] {
-		if why := c10CommittedValue(fn, st.Val, false); why != "" {
+		if why := c10CommittedValue(fn, st.Val, nodeRead); why != "" {
 			c.add("guard", rule, fname+"#MaxSeq:value", Violated, c.P.InstrPos(st), "request.MaxSeq is set to something that is not the loaded committed watermark: "+why)
 			capOK = false
 		}
@@ -650,6 +672,10 @@ func c10ClampedRead(c *Ctx, rule string, cs callSite) {
 		c10CH + "maxUint64Value(" + mn + ", " + c10CH + "nextSeq(" + c10CH + "maxUint64Value(retentionThroughSeq, *.LocalRetentionThroughSeq)))",
 		c10CH + "maxUint64Value(" + c10CH + "nextSeq(" + c10CH + "maxUint64Value(retentionThroughSeq, *.LocalRetentionThroughSeq)), " + mn + ")",
 		c10CH + "maxUint64Value(" + mn + ", " + c10CH + "nextSeq(" + c10CH + "maxUint64Value(*.LocalRetentionThroughSeq, retentionThroughSeq)))",
+	}
+	if nodeRead {
+		// the node-level read raises MinSeq to the metadata retention boundary only
+		shapes = []string{"pkg/cluster.maxReadCommittedMinSeq(" + mn + ", pkg/cluster.minAvailableSeq(*.RetentionThroughSeq))"}
 	}
 	floorOK := len(stores["MinSeq"]) > 0 && mn != ""
 	barriers := map[ssa.Instruction]bool{}
